@@ -18,10 +18,11 @@ import (
 )
 
 // Case: Kind selects the sub-check.
-//   position: play Moves from FEN on an engine board, print, parse back, compare everything
-//   text:     FEN is canonical text: parse, print, compare text; compare board with the reference reading
-//   uci:      `position fen FEN` + `fen` prints FEN; then the rejected command Bad leaves it in place
-//   bytes:    arbitrary input Raw (string of bytes) must not crash
+//
+//	position: play Moves from FEN on an engine board, print, parse back, compare everything
+//	text:     FEN is canonical text: parse, print, compare text; compare board with the reference reading
+//	uci:      `position fen FEN` + `fen` prints FEN; then the rejected command Bad leaves it in place
+//	bytes:    arbitrary input Raw (string of bytes) must not crash
 type Case struct {
 	Kind  string   `json:"kind"`
 	FEN   string   `json:"fen,omitempty"`
